@@ -46,10 +46,46 @@ def run(ctx):
         if n["status"] != "value":
             # the library produced an encoding the reference reader rejects: decide which one is wrong before going on
             raise Infra("TLV reader rejects the library's own encoding of %s" % n["name"])
+    # OCTET STRING / BIT STRING values that themselves hold DER (extension values, the key in a PKCS#8 wrapper, the safe
+    # contents of a PKCS#12 file): TLC reads them too, level by level; their nodes join the item's node list with
+    # absolute offsets, right behind the wrapper, so that resizing an inner value re-encodes every enclosing length
+    bytes_of = {a["name"]: a["bytes"] for a in asn}
+    per_item = {n["name"]: list(n["nodes"]) for n in nodes}
+    inner_total = 0
+    frontier = [(n["name"], nd) for n in nodes for nd in per_item[n["name"]]]       # (item, node object)
+    for level in range(3):
+        cand = []
+        for (name, nd) in frontier:
+            b = bytes_of[name]
+            tagbyte = b[nd["tag"] - 1]
+            if nd["cons"] or nd["len"] < 2 or tagbyte not in (0x04, 0x03):
+                continue
+            start = nd["lenoff"] - 1 + nd["lensz"] + (1 if tagbyte == 0x03 else 0)     # a BIT STRING starts with its unused-bits octet
+            end = nd["lenoff"] - 1 + nd["lensz"] + nd["len"]
+            if end - start >= 2:
+                cand.append({"name": "%s@%d.%d" % (name, level, len(cand)), "bytes": b[start:end], "item": name, "start": start, "wrapper": nd})
+        if not cand:
+            break
+        write_ndjson(os.path.join(d, "corpus_inner.ndjson"), [{"name": c["name"], "bytes": c["bytes"]} for c in cand])
+        with open(os.path.join(d, "TLV_inner.cfg"), "w") as f:
+            f.write("SPECIFICATION Spec\nCONSTANTS\n  Alphabet = {0}\n  MaxLen = 0\n  CorpusFile = \"corpus_inner.ndjson\"\nINVARIANTS Bounded InBounds NoStuck Emit\n")
+        r2 = ctx.tlc("TLV", "TLV_inner.cfg", workers=1, timeout=900)
+        got = {x["name"]: x for x in markers(r2["out"], "NODES")}
+        frontier = []
+        for c in cand:
+            x = got.get(c["name"])
+            if x is None or x["status"] != "value" or not x["nodes"] or x["nodes"][0]["tag"] != 1:
+                continue        # not DER inside: an opaque value
+            lst = per_item[c["item"]]
+            at = next(i for i, nd in enumerate(lst) if nd is c["wrapper"]) + 1
+            shifted = [dict(nd, tag=nd["tag"] + c["start"], lenoff=nd["lenoff"] + c["start"]) for nd in x["nodes"]]
+            lst[at:at] = shifted
+            inner_total += len(shifted)
+            frontier += [(c["item"], nd) for nd in shifted]
     nodef = os.path.join(ctx.work, "nodes.ndjson")
-    write_ndjson(nodef, [{"name": n["name"], "nodes": n["nodes"]} for n in nodes])
-    nn = sum(len(n["nodes"]) for n in nodes)
-    ctx.log("corpus: %d items (%d ASN.1, %d TLV nodes)" % (len(corpus), len(asn), nn))
+    write_ndjson(nodef, [{"name": name, "nodes": per_item[name]} for name in per_item])
+    nn = sum(len(v) for v in per_item.values())
+    ctx.log("corpus: %d items (%d ASN.1, %d TLV nodes of which %d inside OCTET / BIT STRING values)" % (len(corpus), len(asn), nn, inner_total))
     # 3. the mutation catalogue through every decoder
     outf = os.path.join(ctx.work, "out.json")
     ctx.harness(["c18-run", corpf, nodef, shortf, outf, "1" if thorough else "0", str(ctx.seed)], timeout=6 * 3600 if thorough else 3000)
